@@ -14,8 +14,10 @@ import (
 	"encoding/json"
 	"errors"
 	"fmt"
+	"io"
 	"os"
 	"os/exec"
+	"sort"
 	"strconv"
 	"strings"
 	"syscall"
@@ -26,6 +28,16 @@ import (
 )
 
 const kernelStateEnv = "LCV_SIMK_STATE"
+
+// ChrootStub stands in for chroot(1) (configuration key CHROOT_EXEC) in process-level steps: it
+// succeeds iff it was started the way the manual says `layercake chroot <layer>` starts the chroot
+// program -- one argument, the layer's build directory, and LAYERCAKE_LAYER=<layer> in the
+// environment (the harness passes what it expects in LCV_EXPECT_*).
+const ChrootStub = ScratchBase + "/.chroot-stub"
+
+const chrootStubText = "#!/bin/sh\n[ $# -eq 1 ] && [ \"$1\" = \"$LCV_EXPECT_DIR\" ] && [ \"$LAYERCAKE_LAYER\" = \"$LCV_EXPECT_LAYER\" ]\n"
+
+func writeChrootStub() error { return os.WriteFile(ChrootStub, []byte(chrootStubText), 0755) }
 
 // CLIAvailable: the project tree the harness was built from has the external-kernel hook and
 // the binary is there.  (Without the hook the binary would issue real mount(2) calls.)
@@ -87,6 +99,12 @@ func cliArgv(in Input, st StepIn, salt int) []string {
 		}
 	case "shake":
 		cmd = []string{"shake"}
+	case "chroot":
+		// only with a configuration file: it names the stand-in for chroot(1) (ChrootStub)
+		if in.Conf == "" {
+			return nil
+		}
+		cmd = []string{"chroot", c.A}
 	case "list":
 		cmd = []string{"list"}
 	default:
@@ -129,7 +147,88 @@ func cliArgv(in Input, st StepIn, salt int) []string {
 }
 
 func cliEligible(in Input, st StepIn) bool {
-	return len(st.Users) == 0 && cliArgv(in, st, 0) != nil
+	if cliArgv(in, st, 0) == nil {
+		return false
+	}
+	// users of a process-level step are LIVE processes the binary finds in the real /proc: each
+	// needs an existing directory to sit in
+	for name, us := range st.Users {
+		for _, u := range us {
+			if fi, err := os.Stat(userDir(in.Cfg, name, u)); err != nil || !fi.IsDir() {
+				return false
+			}
+		}
+	}
+	return true
+}
+
+func userDir(cfg Cfg, layer string, u User) string {
+	if u.File == "" {
+		return cfg.Layers + "/" + layer
+	}
+	return cfg.Layers + "/" + layer + "/" + u.File
+}
+
+type liveUser struct {
+	cmd   *exec.Cmd
+	stdin io.WriteCloser
+}
+
+// startLiveUser starts a process whose working directory (or, for a Root user, whose root
+// directory and nothing else) is dir, and waits until it is in place.
+func startLiveUser(self, dir string, root bool) (*liveUser, error) {
+	mode := "cwd"
+	if root {
+		mode = "root"
+	}
+	cmd := exec.Command(self, "live-user", mode, dir)
+	cmd.Dir = "/"
+	stdin, err := cmd.StdinPipe()
+	if err != nil {
+		return nil, err
+	}
+	stdout, err := cmd.StdoutPipe()
+	if err != nil {
+		return nil, err
+	}
+	if err := cmd.Start(); err != nil {
+		return nil, err
+	}
+	buf := make([]byte, 16)
+	n, _ := stdout.Read(buf)
+	if !strings.HasPrefix(string(buf[:n]), "ready") {
+		stdin.Close()
+		cmd.Wait()
+		return nil, fmt.Errorf("live user in %s: %q", dir, string(buf[:n]))
+	}
+	return &liveUser{cmd, stdin}, nil
+}
+
+func (l *liveUser) stop() {
+	l.stdin.Close()
+	l.cmd.Wait()
+}
+
+// LiveUserMain: `lcv live-user cwd|root <dir>` -- take the place, say ready, stay until stdin closes.
+func LiveUserMain(args []string) {
+	if len(args) != 2 {
+		os.Exit(2)
+	}
+	var err error
+	if args[0] == "root" {
+		// the working directory stays outside: exactly one link of this process points into the layer
+		if err = os.Chdir("/"); err == nil {
+			err = syscall.Chroot(args[1])
+		}
+	} else {
+		err = os.Chdir(args[1])
+	}
+	if err != nil {
+		fmt.Println("failed:", err)
+		os.Exit(1)
+	}
+	fmt.Println("ready")
+	io.Copy(io.Discard, os.Stdin)
 }
 
 func parseOpLog(data string) []Op {
@@ -194,6 +293,20 @@ func runStepCLI(in Input, k *simk.Kernel, st StepIn, salt int) (obs StepObs) {
 		return StepObs{Res: "harness-error", Err: err.Error()}
 	}
 	argv := cliArgv(in, st, salt)
+	names := []string{}
+	for name := range st.Users {
+		names = append(names, name)
+	}
+	sort.Strings(names)
+	for _, name := range names {
+		for _, u := range st.Users[name] {
+			lu, err := startLiveUser(self, userDir(cfg, name, u), u.Root)
+			if err != nil {
+				return StepObs{Res: "harness-error", Err: err.Error()}
+			}
+			defer lu.stop()
+		}
+	}
 	cmd := exec.Command(os.Getenv("LCV_RUN")+"/layercake", argv...)
 	env := []string{}
 	for _, e := range os.Environ() {
@@ -207,6 +320,9 @@ func runStepCLI(in Input, k *simk.Kernel, st StepIn, salt int) (obs StepObs) {
 	env = append(env, "HOME="+scratch, "LAYERCAKE_VERIF_KERNEL="+helper, kernelStateEnv+"="+state, "LAYERCAKE_VERIF_LOG="+logfile)
 	if st.Env.Fault != "" {
 		env = append(env, fmt.Sprintf("LAYERCAKE_VERIF_FAULT=%s:%d", st.Env.Fault, st.Env.K))
+	}
+	if st.Cmd.Kind == "chroot" {
+		env = append(env, "LCV_EXPECT_DIR="+cfg.Layers+"/"+st.Cmd.A+"/"+cfg.BuildRoot, "LCV_EXPECT_LAYER="+st.Cmd.A)
 	}
 	cmd.Env = env
 	cmd.Dir = "/"
